@@ -1171,3 +1171,16 @@ dtwin('c12-seterr-restored-in-finally', 'C12', 'seeded/twins/seterr-restored-in-
       why='process-wide numpy error mode changed and restored on every exit (try/finally)')
 dtwin('c12-errstate-context-manager', 'C12', 'seeded/twins/errstate-context-manager.diff',
       why='np.errstate context manager: no process-wide state survives the block')
+
+
+def dnoalarm(id, prop, diff, why=''):
+    """A kept behaviour-preserving patch of a form some rule cannot decide: no checker may report a violation
+    (exit 0 or "could not decide", never an alarm)."""
+    CORPUS.append(Edit(id, prop, '@diff', None, diff, '', 'noalarm', None, why, None))
+
+
+for _f in sorted(_glob.glob(_os.path.join(_VERIF, 'seeded', 'undecided', '*.diff'))):
+    _rel = _os.path.relpath(_f, _VERIF)
+    dnoalarm('undecided-' + _os.path.basename(_f).replace('.diff', '')[:60], '*', _rel,
+             why='behaviour-preserving refactoring of a form at least one rule declares undecided (exit 2): '
+                 'never a violation')
